@@ -385,6 +385,49 @@ var rulePools = &core.Rule{ID: "R04.3", Min: 6,
 					}
 				}
 				s.Check(okOrder, key+": reset before use", c.Pos(reset.Pos()), "reset dominates every other use", "the pooled value is used before it is reset")
+				// Put is the last use: a non-deferred Put of this value must not be followed by any other use of it
+				// (deferred calls and deferred closures run at function exit and are fine)
+				for _, ci := range core.Calls(f) {
+					put, isCall := ci.(*ssa.Call)
+					if !isCall || !core.MethodCalleeIs(&put.Call, "sync", "Pool", "Put") {
+						continue
+					}
+					mi, ok := put.Call.Args[1].(*ssa.MakeInterface)
+					if !ok {
+						continue
+					}
+					isObj := mi.X == obj
+					if u, ok := mi.X.(*ssa.UnOp); ok {
+						for _, cl := range cellLoads {
+							if cl == ssa.Instruction(mi) && u != nil {
+								isObj = true
+							}
+						}
+					}
+					if !isObj {
+						continue
+					}
+					after := ""
+					reach := core.Reach(put.Block())
+					for _, u := range all {
+						if u == ssa.Instruction(mi) || u == ssa.Instruction(put) || u.Parent() != f {
+							continue
+						}
+						if _, isStore := u.(*ssa.Store); isStore {
+							continue
+						}
+						later := false
+						if u.Block() == put.Block() {
+							later = core.InstrIndex(u) > core.InstrIndex(put)
+						} else if reach[u.Block()] {
+							later = true
+						}
+						if later {
+							after = c.Pos(u.Pos())
+						}
+					}
+					s.Check(after == "", key+": Put is the last use", c.Pos(put.Pos()), "no use of the pooled value after it was handed back", "the pooled value is still used (at "+after+") after it was put back into the pool: another goroutine can take and reset it in between (data race, results of another detection)")
+				}
 			}
 		}
 		s.Check(nGet >= 2, "pool Get sites", "-", fmt.Sprint(nGet), "fewer than two pooled objects found")
@@ -471,3 +514,156 @@ func uniqStrings(xs []string) []string {
 	sort.Strings(out)
 	return out
 }
+
+// ---- R04.5: validation of the read-only contract table against library source ----
+
+type roVerdict struct {
+	status string // verified | leaf | escapes | writes | dynamic
+	why    string
+}
+
+// extWrites analyses the body of a (library) function: may it write through
+// byte-slice parameter idx?
+func extWrites(g *ssa.Function, idx int, depth int, seen map[string]bool) roVerdict {
+	key := fmt.Sprintf("%s#%d", g.String(), idx)
+	if seen[key] {
+		return roVerdict{"verified", "recursive"}
+	}
+	seen[key] = true
+	if g.Blocks == nil {
+		return roVerdict{"leaf", g.String() + " has no Go body (assembly / runtime intrinsic)"}
+	}
+	if depth > 8 {
+		return roVerdict{"dynamic", "call depth limit"}
+	}
+	worst := roVerdict{"verified", ""}
+	upd := func(v roVerdict) {
+		rank := map[string]int{"verified": 0, "leaf": 1, "escapes": 2, "dynamic": 3, "writes": 4}
+		if rank[v.status] > rank[worst.status] {
+			worst = v
+		}
+	}
+	derived := func(v ssa.Value) bool { return extParamRoot(v, g, idx, 0) }
+	for _, b := range g.Blocks {
+		for _, in := range b.Instrs {
+			switch x := in.(type) {
+			case *ssa.Store:
+				if ia, ok := x.Addr.(*ssa.IndexAddr); ok && derived(ia.X) {
+					upd(roVerdict{"writes", "element store in " + g.String()})
+				}
+				if derived(x.Val) {
+					if _, isAlloc := x.Addr.(*ssa.Alloc); !isAlloc {
+						upd(roVerdict{"escapes", "stored into an object by " + g.String()})
+					}
+				}
+			case ssa.CallInstruction:
+				cc := x.Common()
+				if bi, ok := cc.Value.(*ssa.Builtin); ok {
+					if (bi.Name() == "copy" || bi.Name() == "append") && len(cc.Args) > 0 && derived(cc.Args[0]) && core.IsByteSlice(cc.Args[0].Type()) {
+						if bi.Name() == "copy" {
+							upd(roVerdict{"writes", "copy destination in " + g.String()})
+						} else {
+							upd(roVerdict{"writes", "append in place in " + g.String()})
+						}
+					}
+					continue
+				}
+				for ai, a := range cc.Args {
+					if !derived(a) {
+						continue
+					}
+					h := cc.StaticCallee()
+					if h == nil {
+						upd(roVerdict{"dynamic", "passed to a dynamic call in " + g.String()})
+						continue
+					}
+					upd(extWrites(h, ai, depth+1, seen))
+				}
+			}
+		}
+	}
+	return worst
+}
+
+func extParamRoot(v ssa.Value, f *ssa.Function, idx int, depth int) bool {
+	if depth > 10 || v == nil {
+		return false
+	}
+	switch x := v.(type) {
+	case *ssa.Parameter:
+		return idx < len(f.Params) && f.Params[idx] == x
+	case *ssa.Slice:
+		return extParamRoot(x.X, f, idx, depth+1)
+	case *ssa.ChangeType:
+		return extParamRoot(x.X, f, idx, depth+1)
+	case *ssa.Convert:
+		// []byte <-> string conversions copy; unsafe-free std code keeps the bytes otherwise
+		return false
+	case *ssa.Phi:
+		for _, e := range x.Edges {
+			if e != ssa.Value(x) && extParamRoot(e, f, idx, depth+2) {
+				return true
+			}
+		}
+	case *ssa.UnOp:
+		if x.Op == token.MUL {
+			if a, ok := x.X.(*ssa.Alloc); ok {
+				for _, ref := range *a.Referrers() {
+					if st, ok := ref.(*ssa.Store); ok && st.Addr == ssa.Value(a) && extParamRoot(st.Val, f, idx, depth+2) {
+						return true
+					}
+				}
+			}
+		}
+	}
+	return false
+}
+
+var ruleContracts = &core.Rule{ID: "R04.5", Min: 8, Slow: true,
+	Doc: "thorough tier: every external callee that receives a slice derived from the input is re-validated against the library source that is actually linked: no element store, copy destination or in-place append on that parameter, transitively, down to assembly leaves (listed) — the read-only entries of the contract table are checked, not trusted",
+	Run: func(c *core.Ctx, s *core.Sink) {
+		type use struct {
+			g   *ssa.Function
+			idx int
+		}
+		seenUse := map[string]bool{}
+		var uses []use
+		for _, f := range c.SrcFuncs() {
+			for _, ci := range core.Calls(f) {
+				cc := ci.Common()
+				g := cc.StaticCallee()
+				if g == nil || core.InMod(g) {
+					continue
+				}
+				for ai, a := range cc.Args {
+					if paramRoot(a, f, 0) < 0 || !(core.IsByteSlice(a.Type())) {
+						continue
+					}
+					k := fmt.Sprintf("%s#%d", g.String(), ai)
+					if !seenUse[k] {
+						seenUse[k] = true
+						uses = append(uses, use{g, ai})
+					}
+				}
+			}
+		}
+		sort.Slice(uses, func(i, j int) bool { return uses[i].g.String() < uses[j].g.String() })
+		for _, u := range uses {
+			v := extWrites(u.g, u.idx, 0, map[string]bool{})
+			key := fmt.Sprintf("contract: %s leaves argument %d unmodified", u.g.String(), u.idx)
+			switch v.status {
+			case "verified":
+				s.OK(key, "-", "verified from library source (no store / copy / append on the parameter, transitively)")
+			case "leaf":
+				s.OK(key, "-", "verified down to a leaf without Go source: "+v.why+" (trusted)")
+			case "escapes":
+				// the slice is kept by an object (bytes.Reader): its methods only read it — per-parameter contract, trusted
+				ok := u.g.String() == "bytes.NewReader"
+				s.Check(ok, key, "-", "kept by a read-only reader object (bytes.NewReader; trusted contract)", "the input slice escapes into an object whose methods are not covered by the contract table: "+v.why)
+			case "dynamic":
+				s.Bad(key, "-", "the library passes the input slice to a dynamic call: "+v.why)
+			default:
+				s.Bad(key, "-", "the library function writes through this argument ("+v.why+"): the contract table entry `read-only` is wrong and the caller's buffer may be modified")
+			}
+		}
+	}}
